@@ -2,10 +2,11 @@
 
 MC   spec/Heal.tla: validator pass (dirs -> symlinks -> files), FIFO wound channel, the healer's wound loop and its
      heal goroutine, all interleaved, over an abstract POSIX tree (ENOENT / ENOTDIR resolution, MkdirAll / RemoveAll
-     semantics); tree x/, x/y/, x/y/f, x/g, symlink l; EVERY well-formed damaged disk (426): Validate returns nil and
+     semantics); tree x/, x/y/, x/y/f, x/g, symlink l; EVERY well-formed damaged disk (468, incl. 42 with a directory
+     replaced by a symlink that resolves to a look-alike directory): Validate returns nil and
      the disk equals the signed build in every interleaving.
 TV   the real Validate with an archive healer under seeded scheduling jitter (hooks in validator and healer) and
-     GOMAXPROCS 1..16: (a) the model's tree with all 426 disks materialised; (b) generated builds (nested dirs,
+     GOMAXPROCS 1..16: (a) the model's tree with all 468 disks materialised; (b) generated builds (nested dirs,
      symlinks, empty files) with damage sequences as in C05 plus kind swaps that hide whole subtrees (directory ->
      file / symlink, file -> non-empty directory), missing and empty directories, and already valid directories
      (inode / mtime / size / mode of every entry must be unchanged).
@@ -17,6 +18,7 @@ import pairs
 import vlib
 
 PROP = "C06"
+NDISKS = 468   # harness/cmd/vdriver/c06.go modelDisks(); Heal.tla Init enumerates the same set
 
 
 def run(tier):
@@ -24,7 +26,7 @@ def run(tier):
     run.assumptions = [
         "the archive is a zip of the signed build written by the harness (archive/zip); zippool / eos are dependencies",
         "interleavings of the real goroutines are sampled through seeded jitter at the hooks; all interleavings only in the model",
-        "the model does not follow symlinked ancestors (the real code sees ENOENT for a dangling link, the model ENOTDIR): conformance is on outcomes",
+        "a dangling symlink as an ancestor is ENOTDIR in the model (the real code sees ENOENT): conformance is on outcomes; a symlink that resolves to a look-alike directory is followed (kind 'symdir')",
     ]
     binary = vlib.build_harness()
     d = vlib.scratch("c06-")
@@ -32,10 +34,16 @@ def run(tier):
         r = vlib.run_tlc("MC_Heal", "MC_Heal_quick.cfg", timeout=600 if tier == "quick" else 3300, heap="16g")
         if not vlib.require_clean(r, "MC Heal"):
             raise vlib.Inconclusive("MC Heal: %s violated in the model\n%s" % (r.violated, r.out[-3000:]))
-        run.coverage.update({"states": r.distinct, "transitions": r.generated, "mc_runs": [{"cfg": "MC_Heal_quick.cfg", **r.summary()}]})
+        mc = [{"cfg": "MC_Heal_quick.cfg", **r.summary()}]
+        # the model of the validator as found (it looks THROUGH a symlink that replaced a directory) must lose a subtree
+        r0 = vlib.run_tlc("MC_Heal", "MC_Heal_quick.cfg", timeout=600, heap="8g", defines={"Repaired2": "FALSE"})
+        if r0.error or r0.violated != "HealsEverything":
+            raise vlib.Inconclusive("MC Heal with Repaired2=FALSE should violate HealsEverything, got %s %s" % (r0.violated, r0.error))
+        mc.append({"cfg": "MC_Heal_quick.cfg", "defines": {"Repaired2": "FALSE"}, "expected_violation": "HealsEverything", **r0.summary()})
+        run.coverage.update({"states": r.distinct, "transitions": r.generated, "mc_runs": mc})
         vlib.log("[mc] Heal: %d distinct, %d generated, %.1fs" % (r.distinct, r.generated, r.wall))
         reps = 1 if tier == "quick" else 6            # thorough: every disk under several schedules (seed offsets)
-        plans = [(["c06", "-mode", "model"], 426, 0, "model")]
+        plans = [(["c06", "-mode", "model"], NDISKS, 0, "model")]
         plans.append((["c06", "-mode", "tree"], 140 if tier == "quick" else 2800, 0, "tree"))
         total = swaps = 0
         for rep in range(reps):
@@ -68,7 +76,7 @@ def run(tier):
                         run.sample({k: c[k] for k in ("case", "mode", "desc", "damage", "err", "diff")})
         run.coverage["heal_runs"] = total
         run.coverage["runs_with_a_non_directory_where_a_directory_is_expected"] = swaps
-        run.coverage["model_disks_materialised"] = 426
+        run.coverage["model_disks_materialised"] = NDISKS
         run.coverage["traces_validated_against_impl"] = total
         vlib.log("[tv] %d real heals (%d with a non-directory hiding a subtree)" % (total, swaps))
         return run.finish()
